@@ -218,3 +218,13 @@ def ctx_t1(x, k=0):
 
 def ctx_t2(x, k=0):
     return ('t2', x, k)
+
+
+def pool_item(x):
+    """REALPOOL target: x = [value, sleep_ms, poison]; returns ('r', value)"""
+    v, ms, poison = x
+    if ms:
+        time.sleep(ms / 1000.0)
+    if poison:
+        raise ValueError('poison input')
+    return ('r', v)
